@@ -135,7 +135,7 @@ type genCfg struct {
 // GenTree generates a script for the tree world for the given property.
 func GenTree(prop string, r *sim.Rand, tier string) sim.Script {
 	s := &TreeScript{Prop: prop}
-	s.Store = []string{"mem", "lvlmem", "lvlp", "p"}[r.Intn(4)]
+	s.Store = []string{"mem", "lvlmem", "lvlp", "p", "lvlpp"}[r.Intn(5)]
 	s.Cache = []string{"own", "own", "shared"}[r.Intn(3)]
 	if r.Chance(1, 2) {
 		s.Observe = "fresh"
@@ -168,7 +168,7 @@ func GenTree(prop string, r *sim.Rand, tier string) sim.Script {
 			nf := 1 + r.Intn(3)
 			for i := 0; i < nf; i++ {
 				kinds := []string{"dbget", "dbput", "dbdel"}
-				if s.Store == "lvlp" || s.Store == "p" {
+				if s.Store == "lvlp" || s.Store == "p" || s.Store == "lvlpp" {
 					kinds = append(kinds, "diskrd", "diskwr", "diskrd", "diskwr")
 				}
 				s.Faults = append(s.Faults, Fault{Kind: kinds[r.Intn(len(kinds))], N: 1 + r.Intn(nOps*4+4)})
